@@ -545,6 +545,81 @@ def mon_c06(tr: Trace) -> list[Violation]:
     return out
 
 
+# ------------------------------------------------------------------ C08
+
+
+def expected_owner(spec: dict, step: str) -> str | None:
+    """the property's routing rule on the static spec: scoped owner, else wildcard, never for a handler step"""
+    handlers = [s for s in spec["steps"] if s.get("role") == "handler"]
+    if any(h["name"] == step for h in handlers):
+        return None
+    for h in handlers:
+        if h.get("for_steps") and step in h["for_steps"]:
+            return h["name"]
+    for h in handlers:
+        if h.get("for_steps") is None:
+            return h["name"]
+    return None
+
+
+def mon_c08(tr: Trace) -> list[Violation]:
+    out: list[Violation] = []
+    spec = tr.spec
+    maxrec = {s["name"]: s.get("max_rec", 1) for s in spec["steps"] if s.get("role") == "handler"}
+    disabled = bool(spec.get("disable_validation"))
+    for c in _runner_calls(tr):
+        if not isinstance(c.tick, T.TickStepResult) or c.error is not None:
+            continue
+        fails = [r for r in c.tick.result if isinstance(r, R.StepWorkerFailed)]
+        if not fails:
+            continue
+        retried = any(isinstance(x, C.CommandQueueEvent) and x.attempts for x in c.cmds)
+        if retried:
+            continue
+        step = c.tick.step_name
+        exec_ = next((ip for ip in c.before.workers[step].in_progress if ip.worker_id == c.tick.worker_id), None)
+        if exec_ is None:
+            continue
+        owner = expected_owner(spec, step)
+        count = exec_.recovery_counts.get(owner, 0) if owner else 0
+        routed = [x for x in c.cmds if isinstance(x, C.CommandQueueEvent) and type(x.event).__name__ == "StepFailedEvent"]
+        failed = [x for x in c.cmds if isinstance(x, C.CommandFailWorkflow)]
+        should_route = owner is not None and count + 1 <= maxrec[owner]
+        if should_route:
+            ok = (len(routed) == 1 and not failed and routed[0].step_name == owner and
+                  routed[0].recovery_counts.get(owner) == count + 1 and
+                  routed[0].event.exception is fails[0].exception and routed[0].event.step_name == step and
+                  all(routed[0].recovery_counts.get(k) == v for k, v in exec_.recovery_counts.items() if k != owner))
+            if not ok:
+                sig = "C08/validation_disabled_no_handlers" if (disabled and not routed and not c.after.config.handler_for_step) else "C08/not_routed_to_owner"
+                out.append(Violation(sig, f"exhausted failure of {step} (owner {owner}, count {count}/{maxrec[owner]}) was not routed to its handler "
+                                     f"with count+1 and the other counts kept: routed={[(x.step_name, x.recovery_counts) for x in routed]} failed={bool(failed)}", _replay(tr)))
+        else:
+            pubs = [x for x in c.cmds if isinstance(x, C.CommandPublishEvent) and isinstance(x.event, WorkflowFailedEvent)]
+            if routed or len(failed) != 1 or failed[0].exception is not fails[0].exception or len(pubs) != 1 or pubs[0].event.exception is not fails[0].exception:
+                out.append(Violation("C08/not_failed_with_original_exception", f"exhausted failure of {step} with no owner/budget (owner {owner}, count {count}) "
+                                     f"did not fail the run with the original exception and a WorkflowFailedEvent", _replay(tr)))
+    # a handler step is entered only with StepFailedEvents of steps it owns, at most max_recoveries times per lineage
+    for rec in tr.steps:
+        if rec[0] == "enter" and rec[1] in maxrec:
+            sfe = rec[5].get("sfe")
+            if sfe is None:
+                out.append(Violation("C08/handler_entered_without_failure", f"handler {rec[1]} entered with a non-failure event", _replay(tr)))
+            elif expected_owner(spec, sfe["step"]) != rec[1]:
+                out.append(Violation("C08/wrong_handler_entered", f"handler {rec[1]} entered for a failure of {sfe['step']} owned by {expected_owner(spec, sfe['step'])}", _replay(tr)))
+    # per lineage: recovery counts never exceed the budget anywhere in the state
+    for c in _runner_calls(tr):
+        if c.after is None:
+            continue
+        for name, ws in c.after.workers.items():
+            for a in list(ws.queue) + list(ws.in_progress):
+                for h, n in a.recovery_counts.items():
+                    if n > maxrec.get(h, 10 ** 9):
+                        out.append(Violation("C08/budget_exceeded", f"an attempt of {name} carries recovery count {n} for {h} (max_recoveries={maxrec.get(h)})", _replay(tr)))
+                        return out
+    return out
+
+
 MONITORS: dict[str, Callable[[Trace], list[Violation]]] = {
     "C01": mon_c01,
     "C02": mon_c02,
@@ -552,6 +627,7 @@ MONITORS: dict[str, Callable[[Trace], list[Violation]]] = {
     "C04": mon_c04,
     "C05": mon_c05,
     "C06": mon_c06,
+    "C08": mon_c08,
     "C11": mon_c11,
     "C35": mon_c35,
 }
